@@ -307,6 +307,13 @@ func (s *sqlGen) emitTable(t *TableInfo, tags map[string]string, comments []stri
 	if t.Primary {
 		idAt = s.g.r.Intn(len(t.Columns) + 1)
 	}
+	guardsFirst := len(guards) > 0 && s.g.r.Chance(1, 2)
+	if guardsFirst {
+		// a guard may be declared anywhere, also before the id
+		for _, g := range guards {
+			fmt.Fprintf(b, "\t%s\n", g)
+		}
+	}
 	emitID := func() {
 		if t.Primary && !idEmitted {
 			fmt.Fprintf(b, "\tId %s\n", t.IDType)
@@ -327,8 +334,10 @@ func (s *sqlGen) emitTable(t *TableInfo, tags map[string]string, comments []stri
 		fmt.Fprintf(b, "\t%s %s%s\n", c.Field, c.GoType, tag)
 	}
 	emitID()
-	for _, g := range guards {
-		fmt.Fprintf(b, "\t%s\n", g)
+	if !guardsFirst {
+		for _, g := range guards {
+			fmt.Fprintf(b, "\t%s\n", g)
+		}
 	}
 	b.WriteString("}\n\n")
 }
